@@ -196,6 +196,20 @@ AddVs 10
 @AddFV 9 8 7 6
 @AddC 1 0 2 4 6 8 10
 QHexAll""",
+    # regression of the fix "hex halfface ordering check must require vertex-disjoint top and bottom faces" (de91a3d; Example
+    # C16_twisted_cell_rejected): six quads on eight vertices whose top (0,1,2,3) and bottom (0,4,2,5) share two vertices; must be
+    # REJECTED (before the fix the library accepted it: oracles "accepted with topology check but halffaces 0 and 1 share the
+    # vertex ..." / "not in the XF,XB,.. layout")
+    "hex-noncube-eight-vertices-rejected": """Mesh hex
+AddVs 8
+@AddFV 0 1 2 3
+@AddFV 0 4 2 5
+@AddFV 1 0 5 6
+@AddFV 3 2 4 7
+@AddFV 5 2 1 6
+@AddFV 4 0 3 7
+@AddC 1 0 2 4 6 8 10
+QHexAll""",
     # the witness of C16_hex_shape_invariant_unconditional_refuted: two cubes on the same halfface (out of contract, lock step
     # only: harness/run_hex.cc taints the history as soon as a halfface is in two live cells)
     "hex-shared-halfface-immediate": """Mesh hex
